@@ -35,6 +35,7 @@ type cmpCfg struct {
 	UpFails []bool   `json:"upFails"`
 	Gr      []int    `json:"gr"`  // 0: stage of the pipeline that is run; 1: stage of the included pipeline
 	Inc     []bool   `json:"inc"` // the stage runs the included pipeline instead of a task
+	TAllow  []bool   `json:"tallow"` // the task itself allows failure
 }
 
 const cmpNCtx = 2
@@ -42,7 +43,7 @@ const cmpNCtx = 2
 func randCompose(rng *rand.Rand, n int) cmpCfg {
 	c := cmpCfg{N: n, Deps: make([][]int, n), Cls: make([]string, n), NCmd: make([]int, n), FailAt: make([]int, n),
 		NVar: make([]int, n), Ctx: make([]int, n), HB: make([]string, n), HA: make([]string, n), UpFails: make([]bool, cmpNCtx)}
-	c.Gr, c.Inc = make([]int, n), make([]bool, n)
+	c.Gr, c.Inc, c.TAllow = make([]int, n), make([]bool, n), make([]bool, n)
 	// a third of the pipelines (of 3 stages or more) include another pipeline, once or twice
 	if n >= 3 && rng.Intn(3) == 0 {
 		inner := 1 + rng.Intn(2)
@@ -80,6 +81,7 @@ func randCompose(rng *rand.Rand, n int) cmpCfg {
 		}
 		c.NVar[s-1], c.HB[s-1], c.HA[s-1] = 1, "none", "none"
 		if rich && !c.Inc[s-1] {
+			c.TAllow[s-1] = rng.Intn(4) == 0
 			c.NVar[s-1] = 1 + rng.Intn(2)
 			c.Ctx[s-1] = rng.Intn(cmpNCtx + 1)
 			c.HB[s-1] = []string{"none", "none", "ok", "ok", "fail"}[rng.Intn(5)]
@@ -149,6 +151,9 @@ func composeYAML(c cmpCfg, rng *rand.Rand) string {
 		if c.Ctx[s-1] != 0 {
 			fmt.Fprintf(&b, "    context: c%d\n", c.Ctx[s-1])
 		}
+		if c.TAllow[s-1] {
+			b.WriteString("    allow_failure: true\n")
+		}
 		if c.HB[s-1] != "none" {
 			fmt.Fprintf(&b, "    before: [\"%s\"]\n", hook(c.HB[s-1], fmt.Sprintf("s%d-tb", s)))
 		}
@@ -211,7 +216,7 @@ func composeStage(b *strings.Builder, c cmpCfg, s int) {
 }
 
 func composeCfgFile(n int) []byte {
-	return []byte(fmt.Sprintf("CONSTANTS\n  N = %d\n  MaxCmd = 3\n  MaxVar = 2\n  NCtx = %d\n  Nesting = TRUE\n  AtomicLaunch = TRUE\n  HookKinds = {\"none\", \"ok\", \"fail\"}\nINIT TInit\nNEXT TNext\nCONSTRAINT HW\nINVARIANTS CommandsAfterDependencies StopsAtFailure FinalOK RunOnlyWhileStageRunning UpBeforeUse DownAfterAll OneUpAtATime NothingRunsAtReturn NoDoubleLaunch\nPOSTCONDITION PostCond\nCHECK_DEADLOCK FALSE\n", n, cmpNCtx))
+	return []byte(fmt.Sprintf("CONSTANTS\n  N = %d\n  MaxCmd = 3\n  MaxVar = 2\n  NCtx = %d\n  Nesting = TRUE\n  TaskAllow = TRUE\n  AtomicLaunch = TRUE\n  HookKinds = {\"none\", \"ok\", \"fail\"}\nINIT TInit\nNEXT TNext\nCONSTRAINT HW\nINVARIANTS CommandsAfterDependencies StopsAtFailure FinalOK RunOnlyWhileStageRunning UpBeforeUse DownAfterAll OneUpAtATime NothingRunsAtReturn NoDoubleLaunch\nPOSTCONDITION PostCond\nCHECK_DEADLOCK FALSE\n", n, cmpNCtx))
 }
 
 var reJobTag = regexp.MustCompile(`# ([sc])(\d+)-(up|down|cb|ca|tb|ta|cmd)\s*$`)
@@ -278,7 +283,7 @@ func ComposeCheck(env *core.Env, rep *core.Report, k int, models ...string) map[
 			status[j] = "W"
 		}
 		evs := []Event{{"e": "cfg", "n": c.N, "deps": c.Deps, "cls": c.Cls, "ncmd": c.NCmd, "failAt": c.FailAt,
-			"nvar": c.NVar, "ctx": c.Ctx, "hb": c.HB, "ha": c.HA, "upFails": c.UpFails, "gr": c.Gr, "inc": c.Inc}}
+			"nvar": c.NVar, "ctx": c.Ctx, "hb": c.HB, "ha": c.HA, "upFails": c.UpFails, "gr": c.Gr, "inc": c.Inc, "tallow": c.TAllow}}
 		var last map[string]interface{}
 		topGraph := 0
 		for sc.Scan() {
